@@ -21,7 +21,7 @@ CONSTANTS
     TxIds,          \* ids of the non-coinbase transactions of the universe
     TxIns,          \* [TxIds -> SUBSET Outpoint]   Outpoint == <<txid, k>>, k from 1
     TxOuts,         \* [TxIds -> Seq(Out)]  Out == [owner, addr, class, amt, lock]
-    TxOrder,        \* sequence of all TxIds, dependency-consistent (canonical block order)
+    TxOrder,        \* sequence of the TxIds that may be mined, dependency-consistent (canonical block order)
     CbId,           \* sequence: CbId[b] = id of the coinbase of block b
     CbOut,          \* sequence: CbOut[b] = the coinbase output of block b
     Base,           \* the first Base blocks form a linear prefix already synced by the wallet
@@ -100,7 +100,7 @@ ValidSeq(txs, created, spent, cc) ==
          /\ t \notin TxsOn(cc)
          /\ \A op \in TxIns[t] :
                /\ op \notin spent
-               /\ \/ op \in created            \* created earlier in this block
+               /\ \/ op \in created /\ OutOf(op).class = "std"   \* created earlier in this block (ordinary outputs only)
                   \/ /\ op \in CreatedOn(cc)
                      /\ SpendableAt(op, HeightOn(cc, op[1]), Len(cc) + 1)
          /\ ValidSeq(Tail(txs),
